@@ -1218,8 +1218,9 @@ func (c *FuncCtx) applyContract(st *State, con *Contract, sig *types.Signature, 
 			st.assume(v.S)
 		}
 	}
-	// ghost trace of this call
-	if con.Traced {
+	// ghost trace of this call (a function's calls of itself are not recorded:
+	// the trace lists the calls made from outside)
+	if con.Traced && key != c.key {
 		var vals []*Val
 		if recv != nil {
 			vals = append(vals, recv)
@@ -1302,7 +1303,7 @@ func (c *FuncCtx) applyContract(st *State, con *Contract, sig *types.Signature, 
 			}
 		}
 	}
-	if con.Traced {
+	if con.Traced && key != c.key {
 		c.traceResults(st, key, results)
 	}
 	for _, cl := range con.clauses("updates") {
